@@ -762,14 +762,15 @@ theorem nf_withScope_PK (sc : List Str) (scope : Str) {g : Gen}
 /-- **the `$ref` keyword**: the only recursive call is on the same instance, against the
     designated schema, in the scope of the resolved URL -/
 theorem nf_kwRef (hf : StableFetchS env) (sc : List Str) {rec : Rec} (r inst : Json)
+    (hpr : properRef r = true)
     (h : ∀ rs, r = .str rs → ∀ url t, designated env base (sc.headD []) rs = some (url, t) →
       ∀ u, env.urljoin (sc.headD []) url = some u → NF (PK env base (u :: sc)) (rec inst t)) :
     NF (PK env base sc) (kwRef env rec r inst) := by
   refine ⟨fun b st hp => ?_⟩
-  unfold kwRef
-  cases r with
-  | str rs =>
-    dsimp only
+  cases hq : refReading r with
+  | ref rs =>
+    cases refReading_ref hq
+    rw [kwRef_str]
     obtain ⟨h1, h2⟩ := resolve_know hf hp.1 rs
     have hsc := resolve_scopes env rs st
     rcases hr : resolve env rs st with ⟨res, st1⟩
@@ -787,7 +788,12 @@ theorem nf_kwRef (hf : StableFetchS env) (sc : List Str) {rec : Rec} (r inst : J
       · cases h1
     | raise e => exact ⟨nofun, hp1⟩
     | miss q => exact ⟨nofun, hp1⟩
-  | _ => exact ⟨nofun, hp⟩
+  | emptyOrUnresolvable =>
+    -- a falsy scalar would be followed as the empty reference: excluded by `hpr`
+    unfold properRef at hpr
+    rw [hq] at hpr
+    cases hpr
+  | typeError => rw [kwRef_typeError hq]; exact ⟨nofun, hp⟩
 
 /-- the base URIs that can be in effect inside a schema object without `$ref`, the one in effect
     outside being `top`: `top` itself, or its join with the object's identifier -/
@@ -803,7 +809,7 @@ theorem scopeOf_fc (d : Draft) (fc : Option FormatChecker) (kvs : List (Str × J
 /-- **one layer of `iter_errors` on a schema object** -/
 theorem evalStep_obj_nf (hf : StableFetchS env) (impl : FmtImpl) (d : Draft) (fc : Option FormatChecker)
     (rec : Rec) (sc : List Str) (inst : Json) (kvs : List (Str × Json))
-    (hnull : Json.lookup (skey "$ref") kvs ≠ some .null)
+    (hproper : ∀ v, Json.lookup (skey "$ref") kvs = some v → properRef v = true)
     (href : ∀ rs, Json.lookup (skey "$ref") kvs = some (.str rs) →
       ∀ url t, designated env base (sc.headD []) rs = some (url, t) →
       ∀ u, env.urljoin (sc.headD []) url = some u → NF (PK env base (u :: sc)) (rec inst t))
@@ -826,7 +832,8 @@ theorem evalStep_obj_nf (hf : StableFetchS env) (impl : FmtImpl) (d : Draft) (fc
     unfold withScopeOpt schemaBody
     dsimp only
     rw [hl]
-    cases r <;> first | exact absurd hl hnull | skip
+    have hpr := hproper r hl
+    cases r <;> first | exact absurd hpr (by decide) | skip
     all_goals
       dsimp only
       unfold runKeyword
@@ -836,12 +843,12 @@ theorem evalStep_obj_nf (hf : StableFetchS env) (impl : FmtImpl) (d : Draft) (fc
       apply nf_mapErrs
       unfold applyKw
       dsimp only
-    · exact nf_kwRef hf sc _ _ (fun rs h => nomatch h)
-    · exact nf_kwRef hf sc _ _ (fun rs h => nomatch h)
+    · exact nf_kwRef hf sc _ _ hpr (fun rs h => nomatch h)
+    · exact nf_kwRef hf sc _ _ hpr (fun rs h => nomatch h)
     · rename_i rs
-      exact nf_kwRef hf sc _ _ (fun rs' h => by cases h; exact href rs hl)
-    · exact nf_kwRef hf sc _ _ (fun rs h => nomatch h)
-    · exact nf_kwRef hf sc _ _ (fun rs h => nomatch h)
+      exact nf_kwRef hf sc _ _ hpr (fun rs' h => by cases h; exact href rs hl)
+    · exact nf_kwRef hf sc _ _ hpr (fun rs h => nomatch h)
+    · exact nf_kwRef hf sc _ _ hpr (fun rs h => nomatch h)
   | none =>
     -- the keyword loop, in the scope stack `sc'`
     have body : ∀ top' ∈ insideTops env d (sc.headD []) kvs, ∀ sc', sc'.headD [] = top' →
@@ -896,7 +903,12 @@ end Ref
     against — `properties`, `items`, `additionalProperties`, … — is a member again. -/
 structure Ranked (env : Env) (d : Draft) (base : List (Str × Json)) (D : Str → Json → Bool)
     (rank : Str → Json → Nat) : Prop where
-  nonull : ∀ top kvs, D top (.obj kvs) = true → Json.lookup (skey "$ref") kvs ≠ some .null
+  /-- no member has a `$ref` whose value is a falsy scalar (`null`, `0`, `0.0`, `false`): with `null`
+      the keyword loop runs over all members, and any of them is followed as the EMPTY reference when
+      the base URI in effect is non-empty (`refReading`) — a reference the field `ref`, which speaks of
+      string references, does not cover -/
+  proper : ∀ top kvs, D top (.obj kvs) = true → ∀ v, Json.lookup (skey "$ref") kvs = some v →
+    properRef v = true
   ref : ∀ top kvs rs, D top (.obj kvs) = true → Json.lookup (skey "$ref") kvs = some (.str rs) →
     ∀ url t, designated env base top rs = some (url, t) → ∀ u, env.urljoin top url = some u →
       t.isObj = false ∨ (D u t = true ∧ rank u t < rank top (.obj kvs))
@@ -931,7 +943,7 @@ theorem eval_nf (hf : StableFetchS env) (hR : Ranked env d base D rank) (R : Nat
       have hi := size_pos i
       have hr := hRb _ _ hD
       have hmul : 1 * (R + 1) ≤ i.size * (R + 1) := Nat.mul_le_mul_right _ hi
-      refine evalStep_obj_nf hf impl d fc _ sc i kvs (hR.nonull _ kvs hD) ?_ ?_
+      refine evalStep_obj_nf hf impl d fc _ sc i kvs (hR.proper _ kvs hD) ?_ ?_
       · intro rs hl url t hdes u hu
         rcases hR.ref _ kvs rs hD hl url t hdes u hu with ht | ⟨hDt, hlt⟩
         · exact ih i u t (Or.inl ⟨ht, by omega⟩) (u :: sc) rfl
@@ -990,8 +1002,7 @@ theorem vd_kwRefT {env : Env} {base : List (Str × Json)} (hf : StableFetchS env
   refine vd_of_pointwise hw (fun st hp => ?_)
   obtain ⟨h1, h2⟩ := resolve_PK hf hp hdes
   refine ⟨(resolve env r st).2, h2, fun b => ?_⟩
-  unfold kwRef
-  dsimp only
+  rw [kwRef_str]
   rcases hr : resolve env r st with ⟨res, st1⟩
   rw [hr] at h1
   dsimp only at h1
@@ -1173,11 +1184,13 @@ theorem FR.withScope (env : Env) (scope : Str) {g g' : Gen} (hg : FR g g') :
 
 theorem FR.kwRef (env : Env) {rec rec' : Rec} (hrec : ∀ i s, FR (rec i s) (rec' i s))
     (ref inst : Json) : FR (kwRef env rec ref inst) (kwRef env rec' ref inst) := by
-  intro b st hne
-  unfold JS.kwRef at hne ⊢
-  cases ref with
-  | str r =>
-    dsimp only at hne ⊢
+  refine kwRef_cases₂ (R := FR) (fun hg hh b st hne => ?_) (fun r b st hne => ?_) (FR.refl _) (FR.refl _) ref
+  · unfold ifTopEmpty at hne ⊢
+    split
+    · rename_i e; rw [if_pos e] at hne; exact hg b st hne
+    · rename_i e; rw [if_neg e] at hne; exact hh b st hne
+  · rw [kwRef_str] at hne
+    rw [kwRef_str, kwRef_str]
     rcases hr : resolve env r st with ⟨r1, st1⟩
     rw [hr] at hne
     cases r1 with
@@ -1186,7 +1199,6 @@ theorem FR.kwRef (env : Env) {rec rec' : Rec} (hrec : ∀ i s, FR (rec i s) (rec
       exact FR.withScope env url (hrec inst target) b st1 hne
     | raise e => rfl
     | miss q => rfl
-  | _ => rfl
 
 theorem closed₂_FR (env : Env) : Closed₂ env FR where
   emit := fun _ => FR.refl _
